@@ -6,6 +6,9 @@ open Sge
 
 def State.total (s : State) : Int := totalBal s.bal
 
+theorem chk_some {c : Bool} (h : chk c = some ()) : c = true := by
+  unfold chk at h; split at h <;> simp_all
+
 theorem bankSend_total {s s' : State} {a b : Nat} {x : Int} (h : bankSend s a b x = some s') :
     s'.total = s.total := by
   unfold bankSend at h
@@ -18,39 +21,245 @@ theorem bankSend_total {s s' : State} {a b : Nat} {x : Int} (h : bankSend s a b 
 
 theorem useGrant_bal {s s' : State} {g e k : Nat} {x : Int} (h : useGrant s g e k x = some s') : s'.bal = s.bal := by
   unfold useGrant at h
-  repeat' split at h
-  all_goals (first | (cases h; rfl) | cases h)
+  simp only [bind, Option.bind_eq_some_iff, pure, Option.some.injEq] at h
+  obtain ⟨_, _, _, _, _, _, rfl⟩ := h
+  split <;> rfl
 
 theorem useGrant_total {s s' : State} {g e k : Nat} {x : Int} (h : useGrant s g e k x = some s') : s'.total = s.total := by
   unfold State.total; rw [useGrant_bal h]
 
-theorem setBook_bal (s : State) (b : Book) : (setBook s b).bal = s.bal := rfl
-theorem setMarket_bal (s : State) (m : Market) : (setMarket s m).bal = s.bal := rfl
+theorem grantStep_bal {s s' : State} {d : Bool} {g e k : Nat} {x : Int} (h : grantStep s d g e k x = some s') : s'.bal = s.bal := by
+  unfold grantStep at h
+  split at h
+  · exact useGrant_bal h
+  · cases h; rfl
 
-theorem marketAdd_total (s : State) (c : Nat) (tk : Tk) (u st en : Nat) (o : List Nat) (stt : Nat) :
-    (marketAdd s c tk u st en o stt).1.total = s.total := by
-  unfold marketAdd
-  repeat' split
-  all_goals rfl
+theorem grantStep_total {s s' : State} {d : Bool} {g e k : Nat} {x : Int} (h : grantStep s d g e k x = some s') : s'.total = s.total := by
+  unfold State.total; rw [grantStep_bal h]
 
-theorem marketUpdate_total (s : State) (tk : Tk) (u st en stt : Nat) :
-    (marketUpdate s tk u st en stt).1.total = s.total := by
-  unfold marketUpdate
-  repeat' split
-  all_goals rfl
+theorem commit_total (s : State) (r : Option State) (h : ∀ s', r = some s' → s'.total = s.total) :
+    (commit s r).1.total = s.total := by
+  unfold commit
+  cases r with
+  | none => rfl
+  | some s' => exact h s' rfl
 
-theorem marketResolve_total (s : State) (tk : Tk) (u ts stt : Nat) (w : List Nat) :
-    (marketResolve s tk u ts stt w).1.total = s.total := by
-  unfold marketResolve
-  repeat' split
-  all_goals rfl
+theorem marketAddO_total {s s' : State} {c : Nat} {tk : Tk} {u st en : Nat} {o : List Nat} {stt : Nat}
+    (h : marketAddO s c tk u st en o stt = some s') : s'.total = s.total := by
+  unfold marketAddO at h
+  simp only [bind, Option.bind_eq_some_iff, pure, Option.some.injEq] at h
+  obtain ⟨_, _, _, _, _, _, _, _, _, _, _, _, _, _, rfl⟩ := h
+  rfl
 
-theorem houseDeposit_total (s : State) (c : Nat) (tk : Tk) (m : Nat) (a : Int) (pd : Nat) :
-    (houseDeposit s c tk m a pd).1.total = s.total := by
-  unfold houseDeposit
-  repeat' split
-  all_goals (try rfl)
-  all_goals trace_state
-  all_goals sorry
+theorem marketUpdateO_total {s s' : State} {tk : Tk} {u st en stt : Nat}
+    (h : marketUpdateO s tk u st en stt = some s') : s'.total = s.total := by
+  unfold marketUpdateO at h
+  simp only [bind, Option.bind_eq_some_iff, pure, Option.some.injEq] at h
+  obtain ⟨_, _, _, _, _, _, _, _, _, _, rfl⟩ := h
+  rfl
+
+theorem marketResolveO_total {s s' : State} {tk : Tk} {u ts stt : Nat} {w : List Nat}
+    (h : marketResolveO s tk u ts stt w = some s') : s'.total = s.total := by
+  unfold marketResolveO at h
+  simp only [bind, Option.bind_eq_some_iff, pure, Option.some.injEq] at h
+  obtain ⟨_, _, _, _, _, _, _, _, _, _, rfl⟩ := h
+  rfl
+
+theorem houseDepositO_total {s : State} {r : State × Nat} {c : Nat} {tk : Tk} {m : Nat} {a : Int} {pd : Nat}
+    (h : houseDepositO s c tk m a pd = some r) : r.1.total = s.total := by
+  unfold houseDepositO at h
+  simp only [bind, Option.bind_eq_some_iff, pure, Option.some.injEq] at h
+  obtain ⟨_, _, _, _, _, _, s1, h1, _, _, mk, _, b, _, _, _, _, _, _, _, s2, h2, s3, h3, rfl⟩ := h
+  have e1 : s1.total = s.total := grantStep_total h1
+  have e2 := bankSend_total h2
+  have e3 := bankSend_total h3
+  show totalBal s3.bal = _
+  unfold State.total at *
+  omega
+
+theorem houseWithdrawO_total {s s' : State} {c : Nat} {tk : Tk} {m i md : Nat} {a : Int} {pd : Nat}
+    (h : houseWithdrawO s c tk m i md a pd = some s') : s'.total = s.total := by
+  unfold houseWithdrawO at h
+  simp only [bind, Option.bind_eq_some_iff, pure, Option.some.injEq] at h
+  obtain ⟨_, _, _, _, _, _, _, _, _, _, d, _, b, _, _, _, w, _, s1, h1, p, _, s2, h2, b', _, rfl⟩ := h
+  have e1 : s1.total = s.total := grantStep_total h1
+  have e2 := bankSend_total h2
+  show totalBal s2.bal = _
+  unfold State.total at *
+  omega
+
+theorem wagerO_total {s s' : State} {c : Nat} {tk : Tk} {u : Nat} {a : Int} {pl : WagerPayload}
+    (h : wagerO s c tk u a pl = some s') : s'.total = s.total := by
+  unfold wagerO at h
+  simp only [bind, Option.bind_eq_some_iff, pure, Option.some.injEq] at h
+  obtain ⟨_, _, _, _, _, _, _, _, _, _, _, _, _, _, m, _, _, _, _, _, _, _, _, _, _, _, _, _, ov, _, _, _, b, _, r, _, s1, h1, s2, h2, rfl⟩ := h
+  have e1 := bankSend_total h1
+  have e2 := bankSend_total h2
+  show totalBal s2.bal = _
+  unfold State.total at *
+  omega
+
+end Sge.Core
+
+namespace Sge.Core
+open Sge
+
+theorem bettorWins_total (bettor : Nat) : ∀ (fs : List Fulf) (bal : List (Nat × Int)) (b : Book) (r : List (Nat × Int) × Book),
+    bettorWins bal bettor b fs = some r → totalBal r.1 = totalBal bal := by
+  intro fs
+  induction fs with
+  | nil => intro bal b r h; simp [bettorWins] at h; rw [← h]
+  | cons f rest ih =>
+    intro bal b r h
+    unfold bettorWins at h
+    simp only [bind, Option.bind_eq_some_iff] at h
+    obtain ⟨p, _, bal', ht, hrest⟩ := h
+    rw [ih _ _ _ hrest]
+    exact transfer_total _ _ _ _ _ ht
+
+theorem markSettled_total (s : State) (b : Bet) : (markSettled s b).total = s.total := rfl
+
+theorem settleRefund_total {s s' : State} {b : Bet} (h : settleRefund s b = some s') : s'.total = s.total := by
+  unfold settleRefund at h
+  simp only [bind, Option.bind_eq_some_iff, pure, Option.some.injEq] at h
+  obtain ⟨s1, h1, s2, h2, rfl⟩ := h
+  rw [markSettled_total, bankSend_total h2, bankSend_total h1]
+
+theorem settleDeclared_total {s s' : State} {b : Bet} {m : Market} (h : settleDeclared s b m = some s') : s'.total = s.total := by
+  unfold settleDeclared at h
+  simp only [bind, Option.bind_eq_some_iff, pure, Option.some.injEq] at h
+  obtain ⟨bk, _, r, hr, s2, h2, rfl⟩ := h
+  rw [markSettled_total, bankSend_total h2]
+  show totalBal r.1 = totalBal s.bal
+  unfold settleOutcome at hr
+  split at hr
+  · exact bettorWins_total _ _ _ _ _ hr
+  · simp only [Option.map_eq_some_iff] at hr
+    obtain ⟨_, _, rfl⟩ := hr
+    rfl
+
+theorem settleBet_total {s s' : State} {c u : Nat} (h : settleBet s c u = some s') : s'.total = s.total := by
+  unfold settleBet at h
+  simp only [bind, Option.bind_eq_some_iff] at h
+  obtain ⟨_, _, bet, _, _, _, m, _, h⟩ := h
+  split at h
+  · exact settleRefund_total h
+  · simp only [bind, Option.bind_eq_some_iff] at h
+    obtain ⟨_, _, h⟩ := h
+    exact settleDeclared_total h
+
+theorem settlePage_total : ∀ (page : List (Nat × Nat × Nat × Nat)) (s : State) (r : State × Nat),
+    settlePage s page = some r → r.1.total = s.total := by
+  intro page
+  induction page with
+  | nil => intro s r h; simp [settlePage] at h; rw [← h]
+  | cons pb rest ih =>
+    intro s r h
+    unfold settlePage at h
+    simp only [bind, Option.bind_eq_some_iff, pure, Option.some.injEq] at h
+    obtain ⟨s1, h1, r1, hr, rfl⟩ := h
+    show r1.1.total = _
+    rw [ih _ _ hr, settleBet_total h1]
+
+theorem bookResolved_total {s s' : State} {u : Nat} (h : bookResolved s u = some s') : s'.total = s.total := by
+  unfold bookResolved at h
+  simp only [bind, Option.bind_eq_some_iff, pure, Option.some.injEq] at h
+  obtain ⟨_, _, _, _, rfl⟩ := h
+  rfl
+
+theorem betEndBlockStep_total {s : State} {mk n : Nat} {r : State × Nat} (h : betEndBlockStep s mk n = some r) :
+    r.1.total = s.total := by
+  unfold betEndBlockStep at h
+  simp only [bind, Option.bind_eq_some_iff] at h
+  obtain ⟨r0, h0, h⟩ := h
+  have e0 := settlePage_total _ _ _ h0
+  split at h
+  · simp only [pure, Option.some.injEq] at h; rw [← h]; exact e0
+  · simp only [bind, Option.bind_eq_some_iff, pure, Option.some.injEq] at h
+    obtain ⟨q, _, s2, h2, rfl⟩ := h
+    show s2.total = _
+    rw [bookResolved_total h2]
+    exact e0
+
+theorem betEndBlock_total : ∀ (fuel : Nat) (s : State) (n : Nat) (s' : State),
+    betEndBlock fuel s n = some s' → s'.total = s.total := by
+  intro fuel
+  induction fuel with
+  | zero => intro s n s' h; simp [betEndBlock] at h; rw [← h]
+  | succ fuel ih =>
+    intro s n s' h
+    unfold betEndBlock at h
+    split at h
+    · simp at h; rw [← h]
+    · split at h
+      · simp at h; rw [← h]
+      · simp only [bind, Option.bind_eq_some_iff] at h
+        obtain ⟨r, hr, h⟩ := h
+        rw [ih _ _ _ h, betEndBlockStep_total hr]
+
+theorem settlePart_total {s : State} {b : Book} {p : Part} {m : Market} {r : State × Book}
+    (h : settlePart s b p m = some r) : r.1.total = s.total := by
+  unfold settlePart at h
+  simp only [bind, Option.bind_eq_some_iff] at h
+  obtain ⟨_, _, _, _, s1, h1, h⟩ := h
+  split at h
+  · simp only [bind, Option.bind_eq_some_iff, pure, Option.some.injEq] at h
+    obtain ⟨s2, h2, rfl⟩ := h
+    show s2.total = _
+    rw [bankSend_total h2, bankSend_total h1]
+  · simp only [bind, Option.bind_eq_some_iff, pure, Option.some.injEq] at h
+    obtain ⟨s2, h2, rfl⟩ := h
+    show s2.total = _
+    rw [bankSend_total h2, bankSend_total h1]
+
+theorem settleParts_total (m : Market) (count : Nat) : ∀ (ps : List Part) (s : State) (b : Book) (sc pr : Nat)
+    (r : State × Book × Nat × Nat), settleParts m count ps s b sc pr = some r → r.1.total = s.total := by
+  intro ps
+  induction ps with
+  | nil => intro s b sc pr r h; simp [settleParts] at h; rw [← h]
+  | cons p rest ih =>
+    intro s b sc pr r h
+    unfold settleParts at h
+    simp only [bind, Option.bind_eq_some_iff] at h
+    obtain ⟨r1, h1, h⟩ := h
+    have e1 : r1.1.total = s.total := by
+      unfold settleOne at h1
+      split at h1
+      · simp only [Option.map_eq_some_iff] at h1
+        obtain ⟨x, hx, rfl⟩ := h1
+        exact settlePart_total hx
+      · cases h1; rfl
+    split at h
+    · simp only [pure, Option.some.injEq] at h; rw [← h]; exact e1
+    · rw [ih _ _ _ _ _ h]; exact e1
+
+theorem obEndBlock_total : ∀ (fuel : Nat) (s : State) (n i : Nat) (s' : State),
+    obEndBlock fuel s n i = some s' → s'.total = s.total := by
+  intro fuel
+  induction fuel with
+  | zero => intro s n i s' h; simp [obEndBlock] at h; rw [← h]
+  | succ fuel ih =>
+    intro s n i s' h
+    unfold obEndBlock at h
+    split at h
+    · simp at h; rw [← h]
+    · split at h
+      · simp at h; rw [← h]
+      · simp only [bind, Option.bind_eq_some_iff] at h
+        obtain ⟨b, _, m, _, _, _, r, hr, h⟩ := h
+        have e := settleParts_total _ _ _ _ _ _ _ _ hr
+        split at h
+        · simp only [bind, Option.bind_eq_some_iff] at h
+          obtain ⟨q, _, h⟩ := h
+          rw [ih _ _ _ _ h]
+          exact e
+        · rw [ih _ _ _ _ h]
+          exact e
+
+theorem endBlockO_total {s s' : State} (h : endBlockO s = some s') : s'.total = s.total := by
+  unfold endBlockO at h
+  simp only [bind, Option.bind_eq_some_iff] at h
+  obtain ⟨s1, h1, h2⟩ := h
+  rw [obEndBlock_total _ _ _ _ _ h2, betEndBlock_total _ _ _ _ h1]
 
 end Sge.Core
